@@ -9,6 +9,7 @@ import (
 	"go/types"
 	"sort"
 	"strings"
+	"unicode"
 
 	"golang.org/x/tools/go/ssa"
 )
@@ -1144,4 +1145,47 @@ func ruleLangID(p *Prog, r *Report) {
 		}
 	}
 	r.Floor(rule, n, 1)
+}
+
+// ruleDelimParity — R-TAB/parity: the table of paired delimiters is consulted by position (even index: opening, odd index:
+// closing, its counterpart at index-1): no character of general category Ps (opening punctuation) sits at an odd index and
+// none of category Pe (closing punctuation) at an even one. The categories are those of the Go release running the check;
+// characters it does not know have no category and decide nothing. U+FD3E/U+FD3F (ornate parentheses) have their
+// categories exchanged in Unicode itself.
+func ruleDelimParity(p *Prog, r *Report, le *litEval, pkg, name string) {
+	const rule = "R-TAB/parity"
+	lv := le.Var(p.Obj(pkg, name).(*types.Var))
+	if lv.Kind != LList {
+		undecided("P-LIT: %s.%s is not a list literal", pkg, name)
+	}
+	key := pkg + "." + name
+	r.Instance(rule, key)
+	n := 0
+	for i, e := range lv.Elems {
+		x, ok := e.Int()
+		if !ok {
+			undecided("P-LIT: %s.%s[%d] is not constant", pkg, name, i)
+		}
+		c := rune(x)
+		if c == 0xFD3E || c == 0xFD3F {
+			continue
+		}
+		if unicode.Is(unicode.Ps, c) || unicode.Is(unicode.Pe, c) {
+			n++
+		}
+		if i%2 == 1 && unicode.Is(unicode.Ps, c) {
+			r.Bad(rule, key, p.Pos(e.Pos), fmt.Sprintf("U+%04X is an opening punctuation (Ps) at the odd index %d: it is handled as the closing counterpart of U+%04X, and the parity of the following entries is shifted", c, i, func() int64 { y, _ := lv.Elems[i-1].Int(); return y }()))
+			return
+		}
+		if i%2 == 0 && unicode.Is(unicode.Pe, c) {
+			r.Bad(rule, key, p.Pos(e.Pos), fmt.Sprintf("U+%04X is a closing punctuation (Pe) at the even index %d: it is handled as an opening delimiter", c, i))
+			return
+		}
+	}
+	if len(lv.Elems)%2 != 0 {
+		r.Bad(rule, key, p.Pos(lv.Pos), "odd number of entries: the last opening delimiter has no counterpart")
+		return
+	}
+	r.Floor(rule, n, 40)
+	r.OK(rule, key, p.Pos(lv.Pos), fmt.Sprintf("%d Ps/Pe characters sit at the positions their category requires", n))
 }
